@@ -33,6 +33,9 @@ func IsChild() bool {
 	return false
 }
 
+// maxChildren bounds the bisection (a crashing scenario among a thousand needs about ten runs).
+const maxChildren = 400
+
 var panicLine = regexp.MustCompile(`(?m)^(panic: .*|fatal error: .*)$`)
 
 type chunkResult struct {
@@ -120,9 +123,14 @@ func Run(scs []kit.Scenario, out *kit.Out, begin func(kit.Scenario) kit.Ev) erro
 			}
 		}
 	}
+	children := 0
 	rec = func(part []kit.Scenario) error {
 		if len(part) == 0 {
 			return nil
+		}
+		children++
+		if children > maxChildren {
+			return fmt.Errorf("more than %d child processes needed to isolate crashes; giving up", maxChildren)
 		}
 		events, crash, err := runChild(part)
 		if err != nil {
